@@ -10,6 +10,7 @@ Every case is built from a JSON-able parameter dict by a `make_<stream>` functio
 the recorded ones on the implementation and on the model."""
 import base64
 import bz2
+import glob
 import gzip
 import json
 import os
@@ -19,6 +20,7 @@ import numpy as np
 
 import core
 import conf_gen as cg
+from props import c19_cov as cov
 
 IMPORTS = ['From Coq Require Import QArith.', 'From E3FP Require Import Base.Prelude Model.Files.']
 TOL = '(Qmake 1 1000000000)'
@@ -29,6 +31,7 @@ ZEROISH = [0.0, -0.0, 3e-5, -4e-5, 4.9e-5, -1e-9]      # energies that are, or f
 # white space of Unicode beyond ASCII that str.split() splits at, and two non-spaces sharing their UTF-8 lead bytes
 UWS = ['\x85', '\xa0', '\u1680', '\u2000', '\u2009', '\u2028', '\u2029', '\u202f', '\u205f', '\u3000']
 LEAD_NOT_WS = ['\u20ac', '\xa9', '\u200b']
+ODD_NAMES = ['  padded  ', '', 'y' * 100, ' lead', 'trail ', 'a  b', '$$$$', 'M  END', '> <x>', '2,4-di(R)-[x];y', "N'-z", 'caf\xe9\u4e2d', '0', '-1.5']
 
 
 def _settle():
@@ -131,6 +134,8 @@ def base_molecules(ctx, skipped):
                 m = Chem.RemoveHs(m)
             m.SetProp('_Name', name)
             mols.append(('embedded:%s:%d%s' % (name, k, 'H' if keep_h else ''), m))
+    # coverage extension: charges, salts, isotopes, radical, one heavy atom, 2-D depiction, one-conformer embedded molecules
+    mols += cov.extra_bases(ctx, skipped)
     return mols
 
 
@@ -177,9 +182,11 @@ def vary(rng, mol, ci):
         m.SetProp('_ConfEnergies', rng.choice(['', 'abc', '1.0|x']))
     else:
         d['energies'] = 'none'
-    d['name'] = rng.choice(['keep', 'keep', 'keep', 'none', 'unicode', 'line-feed' if ci % 5 == 0 else 'keep'])
+    d['name'] = rng.choice(['keep', 'keep', 'none', 'unicode', 'odd', 'line-feed' if ci % 5 == 0 else 'keep'])
     if d['name'] == 'none':
         m.ClearProp('_Name')
+    elif d['name'] == 'odd':              # legal titles that a careless reader / writer would edit: padding, empty, over 80 characters, SD keywords, punctuation
+        m.SetProp('_Name', ODD_NAMES[ci % len(ODD_NAMES)])
     elif d['name'] == 'unicode':
         m.SetProp('_Name', rng.choice(['mol_\xe9\xdf', 'CHEMBL1-2_3', 'x' * 70, 'a\xa0b', 'tab\there']))
     elif d['name'] == 'line-feed':
@@ -192,6 +199,22 @@ def vary(rng, mol, ci):
         m.SetProp('note', rng.choice(['x\n\ny', 'x\n', 'two\nlines', '\nlead']))
     if rng.random() < 0.3:
         m.SetProp('_hidden', 'h1')
+    d['coords'] = ['as-is', 'as-is', 'dyadic', 'as-is', 'shifted-far', 'as-is', 'as-is'][ci % 7]
+    if d['coords'] != 'as-is':
+        from rdkit.Geometry import Point3D
+        for c in m.GetConformers():
+            for ai in range(m.GetNumAtoms()):
+                q = c.GetAtomPosition(ai)
+                if d['coords'] == 'dyadic':      # multiples of 1/32 A: five decimals, every odd multiple an exact tie of the 4-decimal rounding
+                    c.SetAtomPosition(ai, Point3D(round(q.x * 32) / 32.0, round(q.y * 32) / 32.0, round(q.z * 32) / 32.0))
+                else:                            # far from the origin, all three signs, close to the width of the SD column
+                    c.SetAtomPosition(ai, Point3D(q.x + 1234.56789, q.y - 2345.678915, q.z * 1.0 - 0.00004))
+    if ci % 4 == 1:                       # typed properties (they travel as their string form), padded values, a key with a blank
+        m.SetIntProp('count', rng.randrange(-5, 99))
+        m.SetDoubleProp('score', rng.choice([0.5, 0.1, -2.75, 1e-7]))
+        m.SetBoolProp('flag', rng.random() < 0.5)
+        m.SetProp('padded key' if rng.random() < 0.5 else 'pad', '  v  ')
+        d['typed_props'] = True
     return m, d
 
 
@@ -203,30 +226,55 @@ def draw_sd(rng, bases, ci):
     bname, base = bases[ci % len(bases)] if ci < len(bases) else rng.choice(bases)
     mol, d = vary(rng, base, ci)
     n = mol.GetNumConformers()
-    return {'base': bname, 'variation': d, 'mol_b64': mol_to_b64(mol), 'ext': EXTS[ci % 3],
-            'write_limit': rng.choice([None, None, -1, 1, 2, 2, n, n + 3] if ci % 11 else [0, 1, -3]),
-            'read_limit': rng.choice([None, None, -1, 1, 2, n + 1] if ci % 13 else [0, 1, -3]),
-            'file': rng.choice(['conf', 'CHEMBL12_3', 'a.b']) + EXTS[ci % 3]}
+    ext = EXTS[(ci + ci // max(1, len(bases))) % 3]          # a base meets another compression on every pass over the pool
+    wl = rng.choice([None, None, -1, 1, 2, 2, n, n + 3, max(1, n - 1)] if ci % 11 else [0, 1, -3])
+    lw = n if wl in (None, -1) else wl
+    rl = rng.choice([None, None, -1, 1, 2, n + 1, n, max(1, n - 1), max(1, lw - 1), lw, lw + 1] if ci % 13 else [0, 1, -3])
+    if ci % 29 == 7:
+        for cid in [c.GetId() for c in mol.GetConformers()]:
+            mol.RemoveConformer(cid)                          # no conformer at all: outside the quantifier, model = code only
+    return {'base': bname, 'variation': d, 'mol_b64': mol_to_b64(mol), 'ext': ext, 'write_limit': wl, 'read_limit': rl,
+            'file': rng.choice(['conf', 'CHEMBL12_3', 'a.b', 'x.sdf.old']) + ext,
+            # how the functions are called (the property is about the functions, not about one spelling of the call)
+            'call_write': rng.choice(['kw', 'pos', 'allkw', 'default' if wl is None else 'kw']),
+            'call_read': rng.choice(['kw', 'pos', 'allkw', 'default' if rl is None else 'pos']),
+            'limit_type': ['int', 'int64', 'int', 'int32'][ci % 4], 'mol_class': ['Mol', 'Mol', 'PropertyMol', 'RWMol'][(ci // 2) % 4],
+            'path_kind': ['new-dir', 'new-dir', 'existing-dir', 'nested-new-dirs', 'relative'][ci % 5]}
 
 
 def make_sd(p, workdir):
     from rdkit import Chem
     from e3fp.conformer import util as U
     md = Made(dict(p, stream='sdf'))
-    mol = mol_from_b64(p['mol_b64'])
+    mol = cov.as_class(mol_from_b64(p['mol_b64']), p.get('mol_class', 'Mol'))
     d, wl, rl = p['variation'], p['write_limit'], p['read_limit']
     n = mol.GetNumConformers()
-    path = os.path.join(workdir, 'sd_%d' % len(os.listdir(workdir)), p['file'])
+    pk = p.get('path_kind', 'new-dir')
+    top = os.path.join(workdir, 'sd_%d' % len(os.listdir(workdir)))
+    if pk in ('existing-dir', 'relative'):
+        os.makedirs(top)
+    path = os.path.join(top, 'deeper', 'still') if pk == 'nested-new-dirs' else top
+    path = os.path.join(path, p['file'])
+    arg_path = p['file'] if pk == 'relative' else path       # a bare file name: written to / read from the current directory
     before = cg.mol_obs(mol)
     before_sig = cg.mol_signature(mol)
+    src = cov.describe(mol)
     md.payload.update(props_before=before['props'], conf_ids=[i for i, _ in before['confs']])
-    w = _attempt(lambda: U.mol_to_sdf(mol, path, conf_num=wl))
+    lt = p.get('limit_type', 'int')
+    cwd = os.getcwd()
     try:
-        after = cg.mol_obs(mol)
-    except SystemError:              # see _settle
-        after = cg.mol_obs(mol)
-    md.payload['props_after_write'] = after['props']
-    r = ('err', w[1]) if w[0] == 'err' else _attempt(lambda: U.mol_from_sdf(path, conf_num=rl))
+        if pk == 'relative':
+            os.chdir(top)
+        with cov.quiet_logging():
+            w = _attempt(lambda: cov._write(U, mol, arg_path, cov.as_limit(wl, lt), p.get('call_write', 'kw')))
+        try:
+            after = cg.mol_obs(mol)
+        except SystemError:              # see _settle
+            after = cg.mol_obs(mol)
+        md.payload['props_after_write'] = after['props']
+        r = ('err', w[1]) if w[0] == 'err' else _attempt(lambda: cov._read(U, arg_path, cov.as_limit(rl, lt), p.get('call_read', 'kw')))
+    finally:
+        os.chdir(cwd)
     fb = os.path.basename(path).split('.sdf')[0]
     safe = sd_safe(before['props'])
     value_unsafe = any('\n' in v for k, v in before['props'].items() if k != '_Name')
@@ -239,10 +287,18 @@ def make_sd(p, workdir):
         exp = 'match %s with Ok mr => mol_close 0 (fst mr) %s | Raises _ => false end' % (model, cg.mol_lit(after)) if w[0] == 'ok' else \
               'match %s with Ok _ => false | Raises e => err_eqb e %s end' % (model, w[1])
         md.payload['impl'] = {'write': w[0] if w[0] == 'ok' else w[1], 'read': r[1] if r[0] == 'err' else cg.mol_obs(r[1])['props']}
-        md.case('', exp, model)
+        if w[0] == 'err' and w[1].startswith('EUnexpected_'):
+            md.fail('mol_to_sdf raised %s, which no modelled path raises' % w[1][12:], 'sdf:unexpected-exception')
+        else:
+            md.case('', exp, model)
     else:
         model = 'write_read %s %s %s %s' % (cg.mol_lit(before), _optz(wl), _optz(rl), cg.text_lit(fb))
-        if r[0] == 'err':
+        if r[0] == 'err' and r[1].startswith('EUnexpected_'):
+            # an exception class the model has no constructor for: reported as such (a Coq shard with an unknown constructor would take
+            # a hundred unrelated cases down with it)
+            md.payload['impl'] = r[1]
+            md.fail('write/read raised %s, which no modelled path raises' % r[1][12:], 'sdf:unexpected-exception')
+        elif r[0] == 'err':
             md.payload['impl'] = r[1]
             md.case('', 'result_eqb (wr_close %s) (%s) (Raises %s)' % (TOL, model, r[1]), model)
         else:
@@ -251,7 +307,7 @@ def make_sd(p, workdir):
             md.case('', 'result_eqb (wr_close %s) (%s) (Ok (%s, %s))' % (TOL, model, cg.mol_lit(after), cg.mol_lit(back)), model)
     md.nontrivial = n > 1 and r[0] == 'ok'
     # ---- the property itself, directly on the implementation, inside its stated domain
-    in_domain = d['energies'] in ('none', 'formatted') and safe and (wl is None or wl == -1 or wl >= 1) and (rl is None or rl == -1 or rl >= 1)
+    in_domain = n >= 1 and d['energies'] in ('none', 'formatted') and safe and (wl is None or wl == -1 or wl >= 1) and (rl is None or rl == -1 or rl >= 1)
     md.stats['in_domain'] = in_domain
     if not in_domain:
         return md
@@ -266,35 +322,11 @@ def make_sd(p, workdir):
     want = min(n, lim(wl), lim(rl))
     md.stats['limit_hit_write'] = lim(wl) < n
     md.stats['limit_hit_read'] = lim(rl) < min(n, lim(wl))
-    if rd.GetNumConformers() != want:
-        problems.append('conformer count %d, expected %d' % (rd.GetNumConformers(), want))
-    heavy = [a.GetIdx() for a in mol.GetAtoms() if a.GetAtomicNum() > 1]
-    if Chem.MolToSmiles(rd, isomericSmiles=True) != Chem.MolToSmiles(Chem.RemoveHs(Chem.Mol(mol)), isomericSmiles=True):
-        problems.append('molecule identity changed')
-    if [a.GetAtomicNum() for a in rd.GetAtoms()] != [mol.GetAtomWithIdx(i).GetAtomicNum() for i in heavy]:
-        problems.append('atom order changed')
-    name0 = before['props'].get('_Name', '')
-    if rd.GetProp('_Name') != name0:
-        problems.append('name %r read as %r' % (name0, rd.GetProp('_Name')))
-    src_confs = list(mol.GetConformers())
-    for j, c in enumerate(rd.GetConformers()):
-        if j < len(src_confs):
-            dev = float(np.abs(np.array(c.GetPositions()) - np.array(src_confs[j].GetPositions())[heavy]).max())
-            if dev > 5e-5 + 1e-12:
-                problems.append('conformer %d deviates by %.2e (order or precision)' % (j, dev))
-                break
-    if [c.GetId() for c in rd.GetConformers()] != list(range(rd.GetNumConformers())):
-        problems.append('ids of the conformers read are not 0..n-1')
-    if d['energies'] == 'formatted':
-        e0 = before['props']['_ConfEnergies'].split('|')
-        got = rd.GetProp('_ConfEnergies').split('|') if rd.HasProp('_ConfEnergies') else None
-        if got != e0[:want]:
-            problems.append('energies %s read as %s' % (e0[:want], got))
-    elif rd.HasProp('_ConfEnergies') or rd.HasProp('Energy'):
-        problems.append('energies appear from nowhere')
-    for k, v in before['props'].items():
-        if k not in ('_ConfEnergies',) and (not rd.HasProp(k) or rd.GetProp(k) != v):
-            problems.append('property %s=%r read as %r' % (k, v, rd.GetProp(k) if rd.HasProp(k) else None))
+    problems += cov.rt_problems(src, rd, want)
+    if not isinstance(rd, Chem.Mol):
+        problems.append('mol_from_sdf returned a %s' % type(rd).__name__)
+    # the file itself, read with gzip / bz2 / RDKit only: really compressed, one record per written conformer, Energy tag per record
+    problems += cov.file_problems(path, src, min(n, lim(wl)))
     if problems:
         md.fail('SD round trip violates the property: ' + '; '.join(problems[:3]), 'sdf:' + problems[0].split(' ')[0])
     return md
@@ -437,9 +469,17 @@ def make_malformed(p, workdir):
     return md
 
 
-MAKERS = {'sdf': make_sd, 'codec': make_codec, 'smiles-table': make_table, 'smiles-malformed': make_malformed}
-PARAM_KEYS = {'sdf': ('base', 'variation', 'mol_b64', 'ext', 'write_limit', 'read_limit', 'file'), 'codec': ('value_hex',),
-              'smiles-table': ('entries', 'via', 'ext', 'unique', 'has_header'), 'smiles-malformed': ('file_text', 'ext', 'unique', 'has_header')}
+MAKERS = {'sdf': make_sd, 'codec': make_codec, 'smiles-table': make_table, 'smiles-malformed': make_malformed,
+          'sdf-seq': cov.make_seq, 'sdf-foreign': cov.make_foreign, 'codec-list': cov.make_codec_list, 'smiles-multi': cov.make_multi}
+PARAM_KEYS = {'sdf': ('base', 'variation', 'mol_b64', 'ext', 'write_limit', 'read_limit', 'file', 'call_write', 'call_read', 'limit_type', 'mol_class',
+                      'path_kind'),
+              'codec': ('value_hex',),
+              'smiles-table': ('entries', 'via', 'ext', 'unique', 'has_header'), 'smiles-malformed': ('file_text', 'ext', 'unique', 'has_header'),
+              'sdf-seq': ('template', 'bases', 'mols_b64', 'exts', 'ops', 'mol_class', 'call', 'limit_type'),
+              'sdf-foreign': ('kind', 'path', 'base', 'mol_b64', 'records', 'ext', 'order', 'pattern', 'names', 'read_limit', 'file', 'call'),
+              'codec-list': ('values', 'container', 'preexisting'),
+              'smiles-multi': ('files', 'repeat_first', 'flags', 'unique', 'has_header')}
+BULKY = ('mol_b64', 'mols_b64')
 
 
 def run(ctx):
@@ -451,7 +491,12 @@ def run(ctx):
     found = [False]
     dist = {'cases_by_stream': {}, 'params_by_stream': {}, 'skipped': {}, 'sd_in_domain': 0, 'by_ext': {}, 'by_ids': {}, 'by_energies': {},
             'sd_with_zeroish_energy': 0, 'sd_title_with_line_feed': 0, 'sd_value_with_line_feed': 0, 'limits_hit_write': 0, 'limits_hit_read': 0,
-            'errors_expected': 0, 'codec_zeroish': 0, 'tables_in_theorem_domain': 0, 'tables_with_not_good_token': 0, 'malformed_with_unicode_ws': 0}
+            'errors_expected': 0, 'codec_zeroish': 0, 'tables_in_theorem_domain': 0, 'tables_with_not_good_token': 0, 'malformed_with_unicode_ws': 0,
+            # coverage extension
+            'by_base_kind': {}, 'by_call_write': {}, 'by_call_read': {}, 'by_limit_type': {}, 'by_mol_class': {}, 'by_path_kind': {}, 'by_name_kind': {}, 'by_coords': {},
+            'sd_typed_props': 0, 'sd_without_conformers': 0, 'sd_one_conformer': 0, 'sd_read_limit_equals_records': 0, 'sd_both_limits_active': 0,
+            'seq_by_template': {}, 'seq_reads': 0, 'foreign_by_kind': {}, 'foreign_by_energy_pattern': {}, 'foreign_by_order': {}, 'foreign_errors_expected': 0,
+            'codec_list_by_container': {}, 'codec_list_values': 0, 'multi_by_nfiles': {}, 'multi_tables_in_domain': 0}
 
     def bump(d, k, n=1):
         d[k] = d.get(k, 0) + n
@@ -472,15 +517,30 @@ def run(ctx):
             ctx.fail(what, dict(md.payload, **extra), finding_key=fk)
         ctx.count((stream, json.dumps({k: params.get(k) for k in PARAM_KEYS[stream]}, sort_keys=True, default=str)), md.nontrivial and bool(md.cases))
         if sample and md.cases:
-            ctx.sample({'case': '%s/%s' % (stream, tag), 'parameters': {k: params.get(k) for k in PARAM_KEYS[stream] if k != 'mol_b64'},
+            ctx.sample({'case': '%s/%s' % (stream, tag), 'parameters': {k: params.get(k) for k in PARAM_KEYS[stream] if k not in BULKY},
                         'implementation': md.payload.get('impl'), 'model_check': md.cases[0][1][:300]})
         return md
 
     bases = base_molecules(ctx, dist['skipped'])
-    for ci in range(ctx.n(90, 900)):
+    for ci in range(ctx.n(200, 1200)):
         p = draw_sd(rng, bases, ci)
         md = take('sdf', str(ci), p, sample=ci < 2)
         d = p['variation']
+        n0 = len(md.payload.get('conf_ids', []))
+        lw = n0 if p['write_limit'] in (None, -1) else p['write_limit']
+        bump(dist['by_base_kind'], p['base'].split(':')[0])
+        bump(dist['by_call_write'], p['call_write'])
+        bump(dist['by_call_read'], p['call_read'])
+        bump(dist['by_limit_type'], p['limit_type'])
+        bump(dist['by_mol_class'], p['mol_class'])
+        bump(dist['by_path_kind'], p['path_kind'])
+        bump(dist['by_name_kind'], d['name'])
+        bump(dist['by_coords'], d.get('coords', 'as-is'))
+        dist['sd_typed_props'] += bool(d.get('typed_props'))
+        dist['sd_without_conformers'] += n0 == 0
+        dist['sd_one_conformer'] += n0 == 1
+        dist['sd_read_limit_equals_records'] += p['read_limit'] is not None and p['read_limit'] == min(n0, lw) and n0 > 0
+        dist['sd_both_limits_active'] += p['write_limit'] not in (None, -1) and p['read_limit'] not in (None, -1)
         bump(dist['by_ext'], p['ext'])
         bump(dist['by_ids'], d['ids'])
         bump(dist['by_energies'], d['energies'])
@@ -501,13 +561,37 @@ def run(ctx):
     for i in range(ctx.n(60, 600)):
         md = take('smiles-malformed', str(i), draw_malformed(rng, i))
         dist['malformed_with_unicode_ws'] += md.stats['unicode_ws']
+    # ---- coverage extension: sequences on shared objects / paths, files not written by e3fp, the codec on containers, several SMILES files
+    seq_bases = [b for b in bases if not b[0].startswith('shipped') or b[1].GetNumAtoms() < 30]
+    for i in range(ctx.n(48, 320)):
+        md = take('sdf-seq', str(i), cov.draw_seq(rng, seq_bases, i), sample=i < 1)
+        bump(dist['seq_by_template'], md.stats.get('template', '?'))
+        dist['seq_reads'] += md.stats.get('reads', 0)
+    shipped = sorted(os.path.relpath(q, core.REPO) for q in glob.glob(os.path.join(core.REPO, 'tests/data/*.sdf*')) +
+                     glob.glob(os.path.join(core.REPO, 'tests/data/rand_sdf_files/*.sdf*')))
+    for i in range(ctx.n(72, 480)):
+        md = take('sdf-foreign', str(i), cov.draw_foreign(rng, seq_bases, shipped, i), sample=i == 1)
+        bump(dist['foreign_by_kind'], md.stats.get('kind', '?'))
+        bump(dist['foreign_by_energy_pattern'], str(md.stats.get('pattern')))
+        bump(dist['foreign_by_order'], str(md.stats.get('order')))
+        dist['foreign_errors_expected'] += md.stats.get('error', False)
+    for i in range(ctx.n(70, 700)):
+        p = cov.draw_codec_list(rng, i)
+        md = take('codec-list', str(i), p)
+        bump(dist['codec_list_by_container'], p['container'])
+        dist['codec_list_values'] += len(p['values'])
+    for i in range(ctx.n(36, 360)):
+        md = take('smiles-multi', str(i), cov.draw_multi(rng, i), sample=i < 1)
+        bump(dist['multi_by_nfiles'], str(md.stats.get('nfiles')))
+        dist['multi_tables_in_domain'] += md.stats.get('in_domain', 0)
 
     for stream in MAKERS:
         if not dist['cases_by_stream'].get(stream):
             ctx.fail('stream %s produced no comparable case (%d parameter sets drawn)' % (stream, dist['params_by_stream'].get(stream, 0)), {'stream': stream},
                      no_input=True, kind='harness-error')
     for need in ('sd_with_zeroish_energy', 'sd_title_with_line_feed', 'sd_value_with_line_feed', 'tables_with_not_good_token', 'malformed_with_unicode_ws',
-                 'tables_in_theorem_domain', 'sd_in_domain'):
+                 'tables_in_theorem_domain', 'sd_in_domain', 'sd_typed_props', 'sd_without_conformers', 'sd_one_conformer', 'sd_read_limit_equals_records',
+                 'sd_both_limits_active', 'seq_reads', 'foreign_errors_expected', 'codec_list_values', 'multi_tables_in_domain'):
         if not dist[need]:
             ctx.fail('generator did not produce any input of class %s' % need, {'class': need}, no_input=True, kind='harness-error')
 
@@ -522,7 +606,18 @@ def run(ctx):
                             'CJK; every 4th table with names cut by Unicode/ASCII white space or carrying a look-alike lead byte) through plain/gz/bz2, unique/has_header '
                             'flags; good_token_b of the model cross-checked with the harness classification. smiles-malformed: streams assembled from blank / one-field '
                             '/ tabbed / CRLF / extra-column / form-feed / NBSP / U+2028 / U+3000 / U+0085 pieces; distinct by full input; skipped comparisons are counted '
-                            'under input_distribution.skipped')
+                            'under input_distribution.skipped.  Coverage extension (props/c19_cov.py): the sdf pool also holds charged / zwitterionic / salt / isotope-labelled / '
+                            'radical / one-heavy-atom / 2-D molecules and one-conformer embedded ones; every sdf case also draws the call form (keyword, positional, all '
+                            'keywords, defaults), the type of the limits (int, numpy.int64, numpy.int32), the molecule class (Mol, PropertyMol, RWMol), the path (new directory, '
+                            'existing directory, nested new directories, bare file name in the current directory), read limits equal to / one off the number of records, both '
+                            'limits active, titles with padding / empty / > 80 characters / SD keywords / punctuation, typed properties, and now and then a molecule without '
+                            'conformers; inside the domain the FILE is inspected without e3fp (compression magic, record count, Energy tag per record, no _ConfEnergies, '
+                            'coordinates).  sdf-seq: 8 templates of write / read sequences on shared molecules and paths (overwrite, twice, alternate, generations, '
+                            'limit-then-full, reread, same-name, mutate-read), every read checked directly and against the model.  sdf-foreign: SD files written by RDKit '
+                            'under the harness (records in other orders, per-record names and data items, Energy on all / none / a subset / unparsable / raw spellings, empty '
+                            'file) and the shipped files read in place, against the model\'s mol_from_sdf.  codec-list: 0-6 energies of mixed python / NumPy types in lists, '
+                            'tuples, arrays, generators.  smiles-multi: smiles_generator over 0-3 files of mixed compression (one of them malformed now and then, the first '
+                            'repeated), writers fed generators / dict views / lists of lists / ordered dicts, positional flags, read -> write -> read, a 150-row table')
     ctx.coverage['input_distribution'] = dist
     ctx.coverage['trusted_base'] = ['RDKit SDWriter / ForwardSDMolSupplier (molecule identity, "%10.4f" coordinates, properties without line feeds as strings, `_Name` always '
                                     'defined by the reader) and smart_open compression: Section variables / oracles of the model, exercised by the correspondence only (testing)',
@@ -554,7 +649,7 @@ def replay(ctx, path):
         shutil.rmtree(ctx.workdir, ignore_errors=True)
         return 1
     params = {k: c[k] for k in PARAM_KEYS[stream] if k in c}
-    print('stream %s, parameters: %s' % (stream, json.dumps({k: v for k, v in params.items() if k != 'mol_b64'}, default=str)[:3000]))
+    print('stream %s, parameters: %s' % (stream, json.dumps({k: v for k, v in params.items() if k not in BULKY}, default=str)[:3000]))
     if stream == 'sdf':
         print('molecule: props %s, conformer ids %s' % (c.get('props_before'), c.get('conf_ids')))
     md = MAKERS[stream](params, ctx.workdir)
